@@ -25,6 +25,8 @@ COMMON = ["-std=c++17", "-g", "-fno-omit-frame-pointer", "-D_GLIBCXX_ASSERTIONS"
 def flavour_flags(flavour):
     if flavour == "mon":
         return COMMON + ["-O1"] + SAN
+    if flavour == "plain":    # same sources, no sanitizer: the binary valgrind/memcheck runs (uninitialised reads are invisible to ASan)
+        return COMMON + ["-O1"]
     if flavour == "ref":      # reference snapshot for C08: hooks on, no sanitizers (it is the *other* program)
         return ["-std=c++17", "-g1", "-O1", "-D" + GUARD, "-w"]
     raise ValueError(flavour)
